@@ -4,6 +4,7 @@ import (
 	"fmt"
 	"go/token"
 	"go/types"
+	"sort"
 	"strings"
 
 	"golang.org/x/tools/go/ssa"
@@ -48,6 +49,8 @@ func runC08(p *Prog, r *Report) {
 	}
 	checkResultChan(p, r)
 	checkLogResults(p, r, "C08.R3")
+	r.Min("C08.R6", 2)
+	checkErrorLogger(p, r, "C08.R6")
 	// R5: results detected before completion are still drained: cancel only after done + exit delay
 	r.Min("C08.R5", 2)
 	for _, f := range engineCallers(p) {
@@ -537,5 +540,83 @@ func checkLogResults(p *Prog, r *Report, rule string) {
 			}
 		}
 		r.Check(len(ws) == 0, rule, FuncName(fn)+"/stateless", p.Pos(fn.Pos()), "a result writer keeps no state between records (no store through its receiver)", strings.Join(ws, "; "))
+	}
+}
+
+// checkErrorLogger: every error handed to Logger.Error becomes a record. The zap logger behind it must not
+// sample: zap's production preset keeps the first 100 entries per second with the same level and message
+// and then every 100th - all error records of a scan share their message (the scan label), so a scan with
+// many failing targets would lose 99 of 100 error records.
+func checkErrorLogger(p *Prog, r *Report, rule string) {
+	sampling := map[string]bool{
+		"go.uber.org/zap.NewProduction": true, "go.uber.org/zap.NewExample": false,
+		"go.uber.org/zap/zapcore.NewSampler": true, "go.uber.org/zap/zapcore.NewSamplerWithOptions": true,
+		"go.uber.org/zap.WrapCore": false,
+	}
+	var uses []string
+	nBuild := 0
+	for _, fn := range p.SrcFuncs() {
+		for _, b := range fn.Blocks {
+			for _, in := range b.Instrs {
+				c, ok := in.(*ssa.Call)
+				if !ok {
+					continue
+				}
+				cf := calleeFull(&c.Call)
+				if sampling[cf] {
+					uses = append(uses, cf+" in "+FuncName(fn)+" at "+p.Pos(c.Pos()))
+				}
+				if cf != "(go.uber.org/zap.Config).Build" {
+					continue
+				}
+				nBuild++
+				// the configuration built here has Sampling == nil on every path
+				ok2, why := true, ""
+				for _, s := range Paths(fn).Segs {
+					if !s.Has(c) {
+						continue
+					}
+					cfg := c.Call.Args[0]
+					var cell ssa.Value
+					if u, isU := cfg.(*ssa.UnOp); isU {
+						cell = u.X
+					}
+					if cell == nil {
+						ok2, why = false, "the configuration is not a local variable"
+						continue
+					}
+					cleared, preset := false, false
+					for _, e := range s.Events {
+						if e.Ord > s.ord[c] {
+							break
+						}
+						if e.Kind == EvStore {
+							if e.Addr == cell {
+								// whole-struct store: where does it come from?
+								if pc, isC := s.Resolve(e.Val).(*ssa.Call); isC && (calleeFull(&pc.Call) == "go.uber.org/zap.NewProductionConfig") {
+									preset, cleared = true, false
+								} else if pc, isC := s.Resolve(e.Val).(*ssa.Call); isC && calleeFull(&pc.Call) == "go.uber.org/zap.NewDevelopmentConfig" {
+									preset, cleared = false, true
+								} else {
+									preset, cleared = true, false
+								}
+							}
+							if fa, isFA := e.Addr.(*ssa.FieldAddr); isFA && fa.X == cell && fieldName(fa.X.Type(), fa.Field) == "Sampling" {
+								cleared = isNilConst(e.Val)
+							}
+						}
+					}
+					if preset && !cleared {
+						ok2, why = false, "the logger is built from a configuration whose Sampling is not cleared (production preset: 100 per second, then every 100th entry with the same message)"
+					}
+				}
+				r.Check(ok2, rule, FuncName(fn)+"/config-without-sampling", p.Pos(c.Pos()), "the error logger is built from a zap configuration with Sampling == nil", why)
+			}
+		}
+	}
+	sort.Strings(uses)
+	r.Check(len(uses) == 0, rule, "no-sampling-logger", "-", "no sampling zap logger is constructed (every error handed to Logger.Error becomes a record)", strings.Join(uses, "; "))
+	if nBuild == 0 && len(uses) == 0 {
+		r.Undecided(rule, "error logger construction", "-", "the zap logger is built through (zap.Config).Build", "no construction site found")
 	}
 }
